@@ -1100,7 +1100,7 @@ struct World : CallbackSink, Sink
 	}
 
 	int randomInt() {
-		if(caps.hasCC) return (int)rng.below(41);
+		if(caps.hasCC) { const int v = (int)rng.below(41); if(rng.chance(1, 8)) { count("canContinue.dispatched_already_stopped"); return v | CC_FLAG; } return v; } // 1 in 8: the policy is already false for the arguments as dispatched (the first listener still runs)
 		if(caps.wideInts && rng.chance(3, 5)) {
 			static const int sp[] = { 0, 1, -1, 127, 128, 129, 255, 256, 257, -127, -128, -129, 32767, 32768, -32768, -32769, 65535, 65536, 1 << 24, (1 << 24) + 1, INT_MAX, INT_MAX - 1, INT_MIN, INT_MIN + 1 };
 			const uint32_t c = rng.below(30);
